@@ -36,10 +36,14 @@ class PushedAuthorization(Authorization):
         """
         # create URN
 
+        # The same kind of request as the authorization endpoint deals with, an OpenID Connect
+        # request has parameters (claims) an OAuth2 request class does not know how to read
+        _authz = self.upstream_get("endpoint", "authorization")
+        _request_cls = _authz.request_cls if _authz else AuthorizationRequest
         if isinstance(request, str):
-            _request = AuthorizationRequest().from_urlencoded(request)
+            _request = _request_cls().from_urlencoded(request)
         else:
-            _request = AuthorizationRequest(**request)
+            _request = _request_cls(**request)
 
         _request.verify(keyjar=self.upstream_get("attribute", "keyjar"))
 
